@@ -9,6 +9,34 @@ CLAIMED = {
    "runtime reference-model monitor (independent draft-4 evaluator over exact rationals, run in lock-step with AgainstSchema and NewSchemaValidator on generated pairs)",
    "Every generated (schema, instance) pair is executed through both entry points of the real library and the verdict is compared online with an independent draft-4 model; deviations are attributed to a recorded finding only when the model with exactly that deviation switched on reproduces the implementation on that very case. Held on N sampled pairs, not a proof.",
    "Trusted: the reference model (self-checked against the labelled JSON-Schema suite at every start), Go regexp, strfmt.Default, math/big. Sampled input space.", "DESIGN.md §4 C01"),
+ "C06": ("exploration",
+   "runtime crash/hang monitor (child processes, recover, log-before-run marker, bounded-progress watchdog) over degenerate schemas x hostile values x option combinations",
+   "Degenerate and hostile inputs are executed through the real entry points in child processes; any panic other than the documented invalid-schema panic (cross-checked by an independent reference resolver) or a process death is a violation; non-termination is decided as bounded progress and confirmed by a solo re-run.",
+   "Termination is bounded progress only; sampled input space; the documented panic is recognised by its text plus an independently detected dangling $ref.", "DESIGN.md §4 C06"),
+ "C08": ("exploration",
+   "runtime self-differential monitor (long-lived validator vs freshly built validator vs earlier identical call, online, per call)",
+   "A validator built once is driven through random call sequences with repeats; each outcome is compared with a fresh validator and with the earlier outcome for the same value; two validators sharing one schema object alternate. Held on N sequences.",
+   "The library itself (fresh validator) is the oracle; message sets compared as sorted multisets; sampled sequences.", "DESIGN.md §4 C08"),
+ "C12": ("exploration",
+   "runtime snapshot monitor (deep snapshot before, reflect.DeepEqual + JSON text after) around every call",
+   "Inputs are snapshotted by an independent second decoding before each call and compared afterwards; covers instances, $ref-free schemas with defaults, typed slices for parameter/header validators, raw bytes and parsed specification of accepted documents.",
+   "Mutations invisible to both DeepEqual and JSON text are not seen; sampled input space.", "DESIGN.md §4 C12"),
+ "C13": ("exploration",
+   "runtime reference-model monitor (exact rational arithmetic vs helpers / parameter+header validators / AgainstSchema, every Go carrier of the same value)",
+   "Each (value, carrier, constraint, entry point) tuple is executed on the real code and compared with exact arithmetic; one value is pushed through every exactly-representing carrier and must get one verdict. Deviations are attributed to a recorded finding only when its exact emulation reproduces the implementation.",
+   "math/big is trusted; domain restricted to +-2^53 constraints as the property says; sampled.", "DESIGN.md §4 C13"),
+ "C16": ("exploration",
+   "runtime reference-model monitor (independent simple-schema model over typed Go values vs NewParamValidator/NewHeaderValidator, recycling off and on)",
+   "Generated simple-schema definitions x typed Go values of every width are validated by the real validators and by an independent model; verdicts compared online; recorded findings matched by exact emulation only.",
+   "Model in harness/model/simple.go is trusted; []byte, nil elements, empty header strings outside the compared domain; sampled.", "DESIGN.md §4 C16"),
+ "C17": ("exploration",
+   "runtime structural oracle on results + single-fault location differential",
+   "The error value / Result of real validations is inspected online for well-formedness (nil or 422 composite, message sets equal, no duplicates, names extend the root); separately one fault is planted at a known location and a field-level error with exactly that name is demanded.",
+   "Location accuracy only for properties/patternProperties/additionalProperties/tuple items with dot-free names, as the property states; sampled.", "DESIGN.md §4 C17"),
+ "C20": ("exploration",
+   "runtime model-based monitor (ordered-set model stepped in lock-step with the real Result over random operation sequences, all results compared after every step)",
+   "Random sequences of the public Result operations run on the real type and on an ordered-set model; every result is compared with its model after every step, so loss, duplication, reordering, count drift and aliasing through operands are caught at the step they occur.",
+   "Only the exported API; messages compared by text; sampled sequences.", "DESIGN.md §4 C20"),
 }
 
 NOT_YET = "check not built yet in this session (see DESIGN.md §4 for the planned monitor)"
